@@ -492,7 +492,7 @@ func c20Run(c *core.Ctx) {
 }
 
 func c20Replay(c *core.Ctx, payload json.RawMessage) {
-	if c20RemoteReplay(c, payload) || c20TwinsReplay(c, payload) || c20FailedReplay(c, payload) || c20RepoReplay(c, payload) || c20BorrowReplay(c, payload) || c20ManyReplay(c, payload) || c20AttrsReplay(c, payload) || c20ReloadReplay(c, payload) || c20ContendReplay(c, payload) {
+	if c20RemoteReplay(c, payload) || c20TwinsReplay(c, payload) || c20FailedReplay(c, payload) || c20RepoReplay(c, payload) || c20BorrowReplay(c, payload) || c20ManyReplay(c, payload) || c20AttrsReplay(c, payload) || c20ReloadReplay(c, payload) || c20ContendReplay(c, payload) || c20LinkReplay(c, payload) || c20ColumnReplay(c, payload) {
 		return
 	}
 	var cs c20Case
